@@ -342,6 +342,11 @@ func NewValidatorsRequest(method *abi.Method, args []interface{}) (*stakingtypes
 		return nil, fmt.Errorf("error while unpacking args to ValidatorsInput struct: %s", err)
 	}
 
+	// an empty ABI `bytes` key means "no key": leave it nil so that offset pagination stays usable
+	if len(input.PageRequest.Key) == 0 {
+		input.PageRequest.Key = nil
+	}
+
 	return &stakingtypes.QueryValidatorsRequest{
 		Status:     input.Status,
 		Pagination: &input.PageRequest,
@@ -417,6 +422,11 @@ func NewRedelegationsRequest(method *abi.Method, args []interface{}) (*stakingty
 	if delegatorAddr == "" && input.SrcValidatorAddress == "" && input.DstValidatorAddress == "" ||
 		delegatorAddr == "" && input.SrcValidatorAddress == "" && input.DstValidatorAddress != "" {
 		return nil, errors.New("invalid query. Need to specify at least a source validator address or delegator address")
+	}
+
+	// an empty ABI `bytes` key means "no key": leave it nil so that offset pagination stays usable
+	if len(input.PageRequest.Key) == 0 {
+		input.PageRequest.Key = nil
 	}
 
 	return &stakingtypes.QueryRedelegationsRequest{
